@@ -154,6 +154,7 @@ package flags
 //@   assigns nothing
 
 //@ func (p *parseState) pop() (r string)
+//@   traced
 //@   props C03 C04 C10
 //@   requires p != nil
 //@   ensures len(old(p.args)) > 0 ==> r == old(p.args)[0] && p.arg == r && same(p.args, old(p.args)[1:])
@@ -463,6 +464,10 @@ package flags
 //@   loop 2 invariant forall(k, old(ncalls(Parser.parseLong)), ncalls(Parser.parseLong), okResult(p, callres(Parser.parseLong, k, 0)))
 //@   loop 2 invariant forall(k, old(ncalls(Parser.parseShort)), ncalls(Parser.parseShort), okResult(p, callres(Parser.parseShort, k, 0)))
 //@   loop 2 invariant p.Options&IgnoreUnknown != 0 ==> ncalls(Parser.UnknownOptionHandler) == old(ncalls(Parser.UnknownOptionHandler))
+//@   loop 2 invariant[C07] ncalls(Parser.UnknownOptionHandler) > old(ncalls(Parser.UnknownOptionHandler)) && calltime(Parser.UnknownOptionHandler, ncalls(Parser.UnknownOptionHandler) - 1) == clock() - 1 && s.err == nil ==> same(s.args, callres(Parser.UnknownOptionHandler, ncalls(Parser.UnknownOptionHandler) - 1, 0))
+//@   at[C03] call parseState.addArgs #2: !(p.Options&PassDoubleDash != 0 && arg == "--")
+//@   at[C03] call parseState.addArgs #4: !(p.Options&PassDoubleDash != 0 && arg == "--")
+//@   at[C03] call Parser.parseNonOption #1: !(p.Options&PassDoubleDash != 0 && arg == "--")
 //@   loop 2 decreases len(s.args)
 //@   loop 3 invariant s != nil && s.command != nil
 //@   loop 3 invariant ncalls(Command.fillParseState) > old(ncalls(Command.fillParseState)) && s.command == callarg(Command.fillParseState, ncalls(Command.fillParseState) - 1, 0)
